@@ -332,6 +332,75 @@ fn same_name_probes(rep: &mut Report) {
     }
 }
 
+/// Large inputs (the parallel hash-table build and the hash join proper are only chosen above a
+/// size threshold): every join spelling against a join computed here from the generated rows.
+fn large_join_cases(r: &mut Rng, rep: &mut Report, n_cases: usize) {
+    use std::collections::HashMap;
+    for _ in 0..n_cases {
+        // sizes around the thresholds (2 500 / 5 000 rows) and deliberately not multiples of 1 000
+        let na = *r.pick(&[2501usize, 2703, 3301, 5301, 6007]);
+        let nb = *r.pick(&[2600usize, 3999, 5301, 7000]);
+        let dom = (na.max(nb) as i64) * 2;
+        let mut db = Db::new();
+        db.keep_log = false;
+        db.must("CREATE TABLE la (id INTEGER, k INTEGER)");
+        db.must("CREATE TABLE lb (id INTEGER, k INTEGER)");
+        let gen = |r: &mut Rng, n: usize| -> Vec<(i64, Option<i64>)> { (0..n).map(|i| (i as i64, if r.chance(1, 40) { None } else { Some(r.range(0, dom)) })).collect() };
+        let (ra, rb) = (gen(r, na), gen(r, nb));
+        for (t, rows) in [("la", &ra), ("lb", &rb)] {
+            for chunk in rows.chunks(500) {
+                let vals: Vec<String> = chunk.iter().map(|(i, k)| format!("({}, {})", i, k.map(|v| v.to_string()).unwrap_or("NULL".into()))).collect();
+                db.must(&format!("INSERT INTO {} VALUES {}", t, vals.join(", ")));
+            }
+        }
+        // expected: pairs of ids with equal non-NULL keys
+        let mut by_k: HashMap<i64, Vec<i64>> = HashMap::new();
+        for (i, k) in &rb {
+            if let Some(k) = k {
+                by_k.entry(*k).or_default().push(*i);
+            }
+        }
+        let mut inner: Vec<String> = vec![];
+        let mut left: Vec<String> = vec![];
+        let mut semi: Vec<String> = vec![];
+        for (i, k) in &ra {
+            let ms = k.and_then(|k| by_k.get(&k));
+            match ms {
+                Some(ms) => {
+                    semi.push(format!("(I{})", i));
+                    for j in ms {
+                        inner.push(format!("(I{} I{})", i, j));
+                        left.push(format!("(I{} I{})", i, j));
+                    }
+                }
+                None => left.push(format!("(I{} N)", i)),
+            }
+        }
+        inner.sort();
+        left.sort();
+        semi.sort();
+        let mut run = |name: &str, sql: &str, want: &Vec<String>, rep: &mut Report| {
+            let o = db.query(sql);
+            rep.count(&format!("large_{}", name));
+            let got = o.rows().map(|rows| canon::bag_vec(rows));
+            if got.as_ref() != Some(want) {
+                let diff = got.as_ref().map(|g| (g.len(), g.iter().filter(|x| !want.contains(x)).take(3).cloned().collect::<Vec<_>>()));
+                rep.fail(FailKind::Oracle, None, &format!("large join ({} x {} rows), {}: result differs from the definitional join", na, nb, name),
+                    &format!("tables la({} rows), lb({} rows): id = position, k random in [0,{}) with NULLs; seed-determined\n{};\n expected {} rows, got {:?} (rows, first unexpected ones) / {}", na, nb, dom, sql, want.len(), diff, o.brief().chars().take(200).collect::<String>()));
+            }
+        };
+        rep.case(&format!("large join {} {}", na, nb), true);
+        run("inner_on", "SELECT la.id, lb.id FROM la INNER JOIN lb ON la.k = lb.k", &inner, rep);
+        run("inner_on_swapped", "SELECT la.id, lb.id FROM lb INNER JOIN la ON lb.k = la.k", &inner, rep);
+        run("comma_where", "SELECT la.id, lb.id FROM la, lb WHERE la.k = lb.k", &inner, rep);
+        run("derived", "SELECT la.id, d.id FROM la INNER JOIN (SELECT * FROM lb) AS d ON la.k = d.k", &inner, rep);
+        run("left_join", "SELECT la.id, lb.id FROM la LEFT JOIN lb ON la.k = lb.k", &left, rep);
+        run("right_join", "SELECT la.id, lb.id FROM lb RIGHT JOIN la ON la.k = lb.k", &left, rep);
+        run("semi_in", "SELECT la.id FROM la WHERE la.k IN (SELECT lb.k FROM lb)", &semi, rep);
+        run("semi_exists", "SELECT la.id FROM la WHERE EXISTS (SELECT 1 FROM lb WHERE lb.k = la.k)", &semi, rep);
+    }
+}
+
 fn main() {
     engine::silence_panics();
     let args = Args::parse("C05");
@@ -346,6 +415,11 @@ fn main() {
     probes(&mut model, &mut rep);
     same_name_probes(&mut rep);
     let mut rng = Rng::new(args.seed);
+    {
+        let mut r = rng.fork();
+        let n_large = args.n(2, 12) as usize;
+        large_join_cases(&mut r, &mut rep, n_large);
+    }
     let n = args.n(500, 15000);
     for i in 0..n {
         let mut r = rng.fork();
